@@ -6,6 +6,7 @@ import (
 	"log/slog"
 	"sort"
 	"sync"
+	"sync/atomic"
 
 	"github.com/deckhouse/deckhouse/pkg/log"
 
@@ -40,7 +41,7 @@ type monitor struct {
 	VaryingInformers varyingInformers
 
 	eventCb       func(kemtypes.KubeEvent)
-	eventsEnabled bool
+	eventsEnabled atomic.Bool
 	// Index of namespaces statically defined in monitor configuration
 	staticNamespaces sync.Map
 
@@ -220,7 +221,7 @@ func (m *monitor) CreateInformers() error {
 				verifhook.Point("mon.nsadd.beforeFlagCheck", m.Config.Metadata.MonitorId, nsName)
 				for _, informer := range varyingInformers {
 					informer.withContext(ctx)
-					if m.eventsEnabled {
+					if m.eventsEnabled.Load() {
 						informer.enableKubeEventCb()
 					}
 					informer.start()
@@ -298,6 +299,11 @@ func (m *monitor) Snapshot() []kemtypes.ObjectAndFilterResult {
 // EnableKubeEventCb allows execution of event callback for all informers.
 // Also executes eventCb for events accumulated during "Synchronization" phase.
 func (m *monitor) EnableKubeEventCb() {
+	// Enable events for future VaryingInformers first: a namespace that appears
+	// while the loops below run either finds the flag set or is already stored
+	// and gets enabled by the loop (enabling twice is harmless). Setting the flag
+	// after the loops leaves informers created in between locked for ever.
+	m.eventsEnabled.Store(true)
 	for _, informer := range m.ResourceInformers {
 		informer.enableKubeEventCb()
 	}
@@ -308,8 +314,6 @@ func (m *monitor) EnableKubeEventCb() {
 		}
 	})
 	verifhook.Point("mon.enable.beforeFlag", m.Config.Metadata.MonitorId)
-	// Enable events for future VaryingInformers.
-	m.eventsEnabled = true
 }
 
 // CreateInformersForNamespace creates informers bounded to the namespace. If no matchName is specified,
